@@ -149,8 +149,15 @@ def c08_exec(plan):
                     k -= n
                 if op == "setbit":
                     v = (u[2] >> 1) & 1
-                    ev["a"] = {"h": i, "i": k, "v": v}
-                    H[i][k] = v
+                    vk = ("int", "bits", "bool", "bit_of_self")[(u[2] >> 2) % 4]
+                    if vk == "bit_of_self":
+                        j0 = u[3] % n
+                        v = (H[i].ival >> j0) & 1
+                        val = H[i][j0]
+                    else:
+                        val = Bits(v, 1) if vk == "bits" else (bool(v) if vk == "bool" else v)
+                    ev["a"] = {"h": i, "i": k, "v": v, "vkind": vk}
+                    H[i][k] = val
                 else:
                     ev["a"] = {"h": i, "i": k, "dst": s.get("dst")}
                     res = H[i][k]
